@@ -118,6 +118,7 @@ def cfgs_for(prop, tier):   # noqa: F811  (replaces the draft above)
         out["third_input"] = mk(AllowInput={"B"}, MaxHelper=2, MaxInject=2, InjectSet=inj,
                                 CodeChoices=Raw('[c \\in {"A","B"} |-> IF c = "A" THEN {} ELSE {<<"4","w">>}]'))
         out["fail_then_code"] = mk(AllowClose={"A", "B"}, ConnFails=True, WelcomeErr=True, AllowAllocate={"A"})
+        out["srv_error_close"] = mk(AllowClose={"A"}, MaxSrvErr=1)
         if not q:
             out["third_party"] = mk(AllowClose={"A"}, MaxInject=1, InjectSet=inj, MaxSend=F(1, 0))
             out["input_reent"] = mk(Mode=DELEG, AllowClose={"B"}, AllowInput={"B"}, MaxHelper=2, LateFrames=True,
@@ -722,6 +723,9 @@ def replay(prop, path):
 
 
 # ------------------------------------------------------------------------------------------------ TLC passes
+EXERCISED = {}      # predicate -> number of runs of the last observer pass on which it had something to judge
+
+
 def run_observer(wd, records):
     """Evaluate MailboxObs.tla on the recorded runs.  Returns {tid: {name: bool}}."""
     path = wd.file("obs.ndjson")
@@ -734,8 +738,11 @@ def run_observer(wd, records):
         f.write("---- MODULE MC_Obs ----\nEXTENDS MailboxObs\n====\n")
     r = tlc.run("MC_Obs.tla", "MC_Obs.cfg", workers=1, cwd=wd.path, env={"OBS_FILE": path}, timeout=1800)
     out = {}
+    EXERCISED.clear()
     for v in tlc.printed_tuples(r.stdout, "OBS"):
         out[v[1]] = dict(zip(OBS_NAMES, v[2]))
+        for n, b in zip(OBS_NAMES, v[3]):
+            EXERCISED[n] = EXERCISED.get(n, 0) + bool(b)
     if len(out) != len(records):
         raise RuntimeError("observer evaluated %d of %d runs\n%s" % (len(out), len(records), r.stdout[-3000:]))
     return out, r
@@ -961,6 +968,10 @@ def run_pipeline(prop, tier, v, quick):
                                  "action": runs[t].lines[a]["a"] if a < len(runs[t].lines) else None})
         # ---- 4. the observer decides
         verdicts, robs = run_observer(wd, records)
+        cov["exercised"] = {n: EXERCISED.get(n, 0) for n in DECIDES[prop]}
+        for n, k in cov["exercised"].items():
+            if k == 0:
+                cov.setdefault("notes", []).append("vacuous: no run gave predicate %s anything to judge" % n)
         failing = 0
         nontrivial = set()
         for rec in records:
